@@ -248,7 +248,14 @@ func (fx *Fx) loopEntryAfterPhis(st *State, li *LoopInfo) *State {
 	fx.applyWriteSetMem(st, writes)
 	for g := range writes.ghost {
 		if old, ok := st.Ghost[g]; ok {
-			st.Ghost[g] = Sym(freshName("ghost!"+g), old.S)
+			nv := Sym(freshName("ghost!"+g), old.S)
+			if fx.P.GhostMono[g] && old.S.K == SBV {
+				fx.assume(st, BVOp("bvuge", nv, old))
+				if old.S.W == 64 {
+					fx.assume(st, BVOp("bvult", nv, BVConst(1<<62, 64)))
+				}
+			}
+			st.Ghost[g] = nv
 		}
 	}
 	// 4. assume the invariant; equalities that define a havocked leaf (sym = term) are applied as substitutions
@@ -725,7 +732,15 @@ func (fx *Fx) applyWriteSet(st *State, writes *writeSet) {
 	fx.applyWriteSetMem(st, writes)
 	for g := range writes.ghost {
 		if old, ok := st.Ghost[g]; ok {
-			st.Ghost[g] = Sym(freshName("ghost!"+g), old.S)
+			nv := Sym(freshName("ghost!"+g), old.S)
+			if fx.P.GhostMono[g] && old.S.K == SBV {
+				// a monotone counter only grows from iteration to iteration
+				fx.assume(st, BVOp("bvuge", nv, old))
+				if old.S.W == 64 {
+					fx.assume(st, BVOp("bvult", nv, BVConst(1<<62, 64)))
+				}
+			}
+			st.Ghost[g] = nv
 		}
 	}
 }
